@@ -9,6 +9,10 @@ V = os.path.dirname(os.path.dirname(os.path.abspath(__file__)))
 PY = "/venv/bin/python"
 
 CHECKS = {
+    "C14": ("model_checking", "explicit-state exploration of automata products (g4-derived NFA x shipped ATN) + replay of all access strings and bounded sentences on the real lexer/parser",
+            "The lexer claim is complete for all character strings (every reachable state of the product of the grammar-derived automaton with the deserialised lexer ATN carries the same earliest-accepting-rule label); the parser claim is complete per rule (equal regular languages over token/rule names for all 35 rules, plus per-operator precedence table); all eight ATN copies, vocabularies and rule skeletons of both targets are compared element by element; real-parser verdicts are checked on every bounded sentence per rule and every single-token mutation.",
+            "Trusted: ANTLR Python runtime ATNDeserializer, the g4 reader. The C++ parser is not executed (no C++ ANTLR runtime): for C++ only identity of automata, vocabularies and rule skeletons is claimed.",
+            "DESIGN.md section 5 C14"),
     # id: (category, technique, text, note, design_ref)
     "C02": ("exploration", "bounded-exhaustive enumeration of script prefixes (BFS over item sequences) vs reference denotation",
             "Every item sequence over the statement menu up to the stated depth is rendered, loaded by the real parser/evaluator and compared with an independently written reference denotation; complete for the stated alphabet and depth, nothing beyond.",
